@@ -386,6 +386,19 @@ class CallMixin(StmtMixin):
             env_a.set_result(res)
             if c.ghost_exit is not None:
                 c.ghost_exit(env_a)
+            if c.aliases is not None:
+                from .state import unwrap
+                st_x = env_a.st
+                for path, val in c.aliases(env_a).items():
+                    parts = path.split(".")
+                    cur = res if parts[0] == "result" else binds.get(parts[0])
+                    for p_ in parts[1:-1]:
+                        cur = st_x.obj(cur).get(p_)
+                    if not isinstance(cur, Ref):
+                        raise Unsupported(f"aliases path {path} of {c.key}: owner is not an object here", node)
+                    val = unwrap(val)
+                    st_x = st_x.heap_set(cur, parts[-1], Opt(val.isnone, unwrap(val.val)) if isinstance(val, Opt) else val)
+                env_a.st = st_x
             for st_c, clabel in self.apply_list_cases(env_a.st, c, c.lists, env_a, binds, res, node):
                 env_c = Env(self, st_c, binds)
                 object.__setattr__(env_c, "_old_heap", env._old_heap)
@@ -460,6 +473,14 @@ class CallMixin(StmtMixin):
                     else:
                         new.append(unwrap(it))
                 st_c = st_c.heap_set(lref, "items", tuple(new))
+            for path, val in case.get("alias", {}).items():
+                parts = path.split(".")
+                cur = res if parts[0] == "result" else binds.get(parts[0])
+                for p_ in parts[1:-1]:
+                    cur = st_c.obj(cur).get(p_)
+                if not isinstance(cur, Ref):
+                    raise Unsupported(f"alias path {path} of {c.key}: owner is not an object here", node)
+                st_c = st_c.heap_set(cur, parts[-1], unwrap(val))
             yield st_c, case["label"]
 
     def result_alternatives(self, sort: Sort) -> list:
